@@ -93,6 +93,8 @@ type ProviderSpec struct {
 type Return struct {
 	Type        types.Type
 	ASTTypeExpr ast.Expr
+	// ReferencedImports are the imports the type expression (copied from the source) mentions.
+	ReferencedImports map[string]*Import
 }
 
 // BuildDirective represents a kessoku.Inject call.
